@@ -57,7 +57,24 @@ const HOSTLESS_CALLS: [&str; 5] = [
 
 /// Out-of-domain calls of pure builtins (boundary integers, empty / unaligned / sliced binaries): each
 /// must end the calling process with a runtime error, never with a panic of its worker.
-const EDGE_CALLS: [&str; 32] = [
+/// In-domain (or documented-nil) calls at the edge of the index arithmetic: each must return, not
+/// take the worker down (64 bits starting mid-byte span nine bytes; an index of usize::MAX is nil).
+const EDGE_TOTAL_CALLS: [&str; 5] = [
+    "[0x0000000000000000, 8, 18446744073709551615] __vector_get__",
+    "[9 __binary_new__, 0, 7, 1, 63] __binary_set__",
+    "[9 __binary_new__, 0, 7, 64] __binary_get__",
+    "[[0xff, 9] __binary_repeat__, 0, 1, 64] __binary_get__",
+    "[[0xff, 9] __binary_repeat__, 0, 1, 0, 64] __binary_set__",
+];
+
+const EDGE_CALLS: [&str; 39] = [
+    "[0x00, 2305843009213693952, 0, 8] __binary_get__",
+    "[0x00, 9223372036854775807, 0, 8] __binary_get__",
+    "[0x00, 2305843009213693951, 7, 64] __binary_get__",
+    "[0x00, 2305843009213693952, 0, 1, 8] __binary_set__",
+    "[[0x0000, 9223372036854775808] __binary_repeat__, 1] __binary_shift__",
+    "[0x0000, 18446744073709551615] __binary_repeat__",
+    "[0x0102, 8388609] __binary_repeat__",
     "-65 __binary_new__",
     "18446744073709551616 __binary_new__",
     "[-9223372036854775809, 64] __integer_xor__",
@@ -275,6 +292,13 @@ impl Property for C15 {
             let p = fresh_path(&mut next_child);
             expect_err.push(p);
             h.u64(0x5a);
+        }
+        // a by-stander whose work is a builtin call at the edge of its index arithmetic
+        if rng.chance(1, 5) {
+            body.push(format!("ex = @{{ x = [{}], 5 }}", *rng.pick(&EDGE_TOTAL_CALLS)));
+            let p = fresh_path(&mut next_child);
+            expect_val.insert(p, "5".to_string());
+            h.u64(0xed6e);
         }
         // senders / direct sends to the victim
         let mut senders = 0;
